@@ -6,6 +6,9 @@ import Holpy.C20.ProofsTy
 import Holpy.C20.ProofsParse
 import Holpy.C20.ProofsParseCond
 import Holpy.C20.ProofsParseWf
+import Holpy.C20.ProofsLex4
+import Holpy.C20.ProofsLexCom
+import Holpy.C20.ProofsVcWf
 /-
 C20 — property theorems (helper lemmas: Proofs.lean, ProofsSem.lean, ProofsParse.lean).
 `Exec` is the big-step semantics of Proofs.lean, `holds s e` is `evalE s e = some (.bool true)`,
@@ -55,6 +58,48 @@ theorem vcg_sound (p q : Expr) (c : Com) (hv : ∀ v ∈ vcsH p c q, valid v)
 
 /-- non-vacuity: the loop `Ex.prog` has three `imp.vcg` conditions, all valid. -/
 example : (vcsH Ex.inv Ex.prog Ex.post).length = 3 ∧ vcsH Ex.inv Ex.prog Ex.post = vcsOf Ex.inv Ex.prog Ex.post := by decide
+
+/-! ### the simplifications applied to the conditions are meaning-preserving
+
+`get_vcs` drops a hypothesis that is literally `true` (`ls[i+1] if ls[i] == expr.true`); `imp.vcg_norm`
+unfolds `Entail`, beta-normalises and evaluates the function updates `(s)(a := b s) k`, which in the model
+is the syntactic substitution `subst`. Nothing else is simplified. -/
+
+/-- The `== true` shortcut does not change the meaning of a condition, in any state. -/
+theorem norm_vc_equiv (a b : Expr) (s : State) : holds s (mkVc a b) ↔ holds s (implies a b) :=
+  holds_mkVc_iff a b s
+
+example : mkVc etrue (.bin .le (.int 0) (.var "a")) = .bin .le (.int 0) (.var "a") ∧
+    mkVc (.bin .lt (.int 0) (.var "a")) etrue = implies (.bin .lt (.int 0) (.var "a")) etrue := by decide
+
+/-- Hence the conditions of `get_vcs` are all valid exactly when the conditions of `imp.vcg` are. -/
+theorem vcs_equiv_vcsH (p q : Expr) (c : Com) : (∀ v ∈ vcsOf p c q, valid v) ↔ (∀ v ∈ vcsH p c q, valid v) :=
+  ⟨allValid_getVcsH _, allValid_getVcs _⟩
+
+example : vcsOf etrue Ex.prog Ex.post ≠ vcsH etrue Ex.prog Ex.post := by decide
+
+/-- Evaluating the function update that `assign_rule` introduces is substitution: `Q[x := e]` in `s` is
+`Q` in the updated state (the normalisation `fun_upd_eval_conv` performs on the conditions). -/
+theorem norm_subst_equiv (s : State) (x : String) (e q : Expr) (v : Int) (he : evalE s e = some (.int v)) :
+    evalE s (subst x e q) = evalE (upd s x v) q :=
+  evalE_subst he q
+
+example : evalE (fun _ => 2) (subst "a" (.bin .add (.var "a") (.int 1)) (.bin .le (.var "a") (.int 3))) = some (.bool true) := by decide
+
+/-- Only partial correctness is claimed (by the code and here): all conditions of a program can be valid
+although no execution of it terminates. -/
+theorem vcs_partial_only : ∃ p q c, (∀ v ∈ vcsOf p c q, valid v) ∧ (∀ s, holds s p) ∧ (∀ s, ¬ holds s q) ∧
+    ∀ s s', ¬ Exec c s s' :=
+  ⟨etrue, .bool false, .while (.bool true) etrue .skip,
+   by intro v hv
+      have e : vcsOf etrue (.while (.bool true) etrue .skip) (.bool false) =
+          [etrue, implies (conj etrue (.bool true)) etrue, implies (conj etrue (neg (.bool true))) (.bool false)] := by decide
+      rw [e] at hv
+      simp only [List.mem_cons, List.not_mem_nil, or_false] at hv
+      rcases hv with rfl | rfl | rfl <;> intro s <;> rfl,
+   fun _ => rfl, fun s h => by simp [holds, evalE] at h, no_exec_loop etrue⟩
+
+example : (vcsOf etrue (.while (.bool true) etrue .skip) (.bool false)).length = 3 := by decide
 
 /-! ### the interpreter and the semantics -/
 
@@ -125,18 +170,79 @@ example : parseCondToks [.id "a", .minus, .id "b", .minus, .id "c", .eqeq, .num 
     parseCondToks (toks (.bin .eq (.bin .sub (.var "a") (.bin .sub (.var "b") (.var "c"))) (.int 0))) =
       some (.bin .eq (.bin .sub (.var "a") (.bin .sub (.var "b") (.var "c"))) (.int 0)) := ⟨by decide, by decide⟩
 
-/-- The condition shown to the user, when read back, has the same value in every state as the
-condition computed. PARTIAL: stated on token sequences; the step from the printed string to the
-tokens (`lex (pp e) = toks e`, identifiers that are not keywords) is checked by the harness on
-every generated expression, not proved. -/
-theorem print_parse_sem_partial (e : Expr) (h : wfC e = true) :
-    ∃ e', parseCondToks (toks e) = some e' ∧ ∀ s, evalE s e' = evalE s e :=
-  ⟨normNeg e, parse_toks e h, fun s => evalE_normNeg s e⟩
+/-! ### … on strings
 
-example : parseCondToks (toks (.bin .le (.bin .mul (.bin .add (.var "a") (.int 1)) (.var "B")) (.un .neg (.var "b")))) =
-      some (.bin .le (.bin .mul (.bin .add (.var "a") (.int 1)) (.var "B")) (.un .neg (.var "b"))) ∧
-    evalE (fun _ => 2) (.bin .le (.bin .mul (.bin .add (.var "a") (.int 1)) (.var "B")) (.un .neg (.var "b"))) =
-      some (.bool false) := ⟨by decide, by decide⟩
+`pp e` is the string `str(e)`; `lex` is Lark's standard lexer for the grammar's terminals (white space
+skipped, CNAME / INT matched as long as possible, a CNAME equal to a keyword literal becomes the
+keyword, otherwise the longest literal); `namesOK e`: every variable name has the CNAME shape and is
+not a keyword (`nameOK`, decidable; the driver evaluates it on every generated name). -/
+
+/-- The lexer reads the printed form of a condition back as exactly the tokens of the printer. -/
+theorem lex_print (e : Expr) (hw : wfC e = true) (hn : namesOK e = true) : lex (pp e) = some (toks e) :=
+  lex_pp ((lexOK_of_wf e hn).2 hw)
+
+example : wfC (.bin .imp (.bin .lt (.var "a1") (.un .neg (.un .neg (.var "_b")))) (.un .not (.bool true))) = true ∧
+    namesOK (.bin .imp (.bin .lt (.var "a1") (.un .neg (.un .neg (.var "_b")))) (.un .not (.bool true))) = true ∧
+    pp (.bin .imp (.bin .lt (.var "a1") (.un .neg (.un .neg (.var "_b")))) (.un .not (.bool true))) = "a1 < --_b --> ~true" := by
+  decide
+
+/-- The same for arithmetic expressions (what is printed in assignments and as operands). -/
+theorem lex_print_arith (e : Expr) (hw : wfA e = true) (hn : namesOK e = true) : lex (pp e) = some (toks e) :=
+  lex_pp ((lexOK_of_wf e hn).1 hw)
+
+example : wfA (.bin .mul (.bin .add (.var "x") (.var "y")) (.fn2 .max (.var "x") (.var "while1"))) = true ∧
+    namesOK (.bin .mul (.bin .add (.var "x") (.var "y")) (.fn2 .max (.var "x") (.var "while1"))) = true := by decide
+
+/-- Printing a condition with (the fixed) `Op.__str__` and parsing the STRING with parser2 (lexer and
+grammar) gives back the same condition, up to the reading of negative constants. -/
+theorem print_parse_string (e : Expr) (hw : wfC e = true) (hn : namesOK e = true) : parseCond (pp e) = some (normNeg e) := by
+  simp only [parseCond, lex_print e hw hn, Option.bind]
+  exact parse_toks e hw
+
+example : parseCond (pp (.un .not (.bin .and (.bin .eq (.bin .sub (.bin .sub (.var "a") (.var "b")) (.var "c")) (.var "d")) (.bool true)))) =
+    some (.un .not (.bin .and (.bin .eq (.bin .sub (.bin .sub (.var "a") (.var "b")) (.var "c")) (.var "d")) (.bool true))) :=
+  print_parse_string _ (by decide) (by decide)
+
+/-- The condition shown to the user (a string), when parsed again, has the same value in every state
+as the condition computed. -/
+theorem print_parse_sem (e : Expr) (hw : wfC e = true) (hn : namesOK e = true) :
+    ∃ e', parseCond (pp e) = some e' ∧ ∀ s, evalE s e' = evalE s e :=
+  ⟨normNeg e, print_parse_string e hw hn, fun s => evalE_normNeg s e⟩
+
+/-- non-vacuity with a loop: every VC of `Ex.prog` is a `wfC` condition over identifiers, so its shown
+string parses back to it. -/
+example : ∀ v ∈ vcsOf Ex.inv Ex.prog Ex.post, wfC v = true ∧ namesOK v = true := by decide
+
+/-- Every condition `get_vcs` produces for a program of the assertion language (`okCom`: guards and
+invariants are `wfC` conditions, assigned expressions `wfA`, all over identifiers; decidable, evaluated by
+the driver on every generated case) is again such a condition. -/
+theorem vcs_in_language (p q : Expr) (c : Com) (hc : okCom c = true) (hp : okE p = true) (hq : okE q = true) :
+    ∀ v ∈ vcsOf p c q, okE v = true :=
+  vcs_ok c [p] q hc hq (by intro x hx; simp at hx; subst hx; exact hp)
+
+example : okCom Ex.prog = true ∧ okE Ex.inv = true ∧ okE Ex.post = true := by decide
+
+/-- Hence every verification condition SHOWN to the user, when parsed again from its string, has in every
+state the value of the condition computed. -/
+theorem vcs_shown_sem (p q : Expr) (c : Com) (hc : okCom c = true) (hp : okE p = true) (hq : okE q = true) :
+    ∀ v ∈ vcsOf p c q, ∃ v', parseCond (pp v) = some v' ∧ ∀ s, evalE s v' = evalE s v := by
+  intro v hv
+  have h := vcs_in_language p q c hc hp hq v hv
+  simp only [okE, Bool.and_eq_true] at h
+  exact print_parse_sem v h.1 h.2
+
+example : ∃ v, v ∈ vcsOf Ex.inv Ex.prog Ex.post ∧ parseCond (pp v) = some v :=
+  ⟨implies Ex.inv Ex.inv, by decide, print_parse_string _ (by decide) (by decide)⟩
+
+/-- The lexer reads a printed program (`print_com`, lines joined by newlines) back as exactly its tokens
+`comToks c`, for every program whose names are identifiers (`nameOK`) and whose operators have a concrete
+syntax (`lexOKc`, decidable). No parse-back theorem for programs is claimed: `Seq(Cond(..), c)` has no
+concrete syntax (known finding). -/
+theorem lex_print_com (c : Com) (h : lexOKc c = true) : lex (ppCom c) = some (comToks c) :=
+  lex_ppCom h
+
+example : lexOKc (.seq Ex.prog (.cond (.bin .le (.var "a") (.int 0)) .skip (.assign "b_1" (.un .neg (.var "a"))))) = true ∧
+    (comToks (.seq Ex.prog (.cond (.bin .le (.var "a") (.int 0)) .skip (.assign "b_1" (.un .neg (.var "a")))))).length = 32 := by decide
 
 /-! ### `Sem` of library/hoare.json (Gen.lean is regenerated from the library on every run) -/
 
